@@ -220,6 +220,13 @@ def row_bool_float(c: Ctx) -> None:
         exc, _, _ = c.read(R.read_boolean, b"", tail=b"")
         if not isinstance(exc, c.BufferUnderflow):
             c.bad("reader-short:read_boolean", f"read_boolean on empty input gave {exc!r}")
+        # "When reading a boolean value, any non-zero value is considered true" (Kafka protocol guide, BOOLEAN)
+        for byte in range(256):
+            exc, v, pos = c.read(R.read_boolean, bytes([byte]))
+            c.tick(R.read_boolean)
+            if exc is not None or v is not (byte != 0) or pos != 1:
+                c.bad(f"reader-bool:read_boolean:{'nonzero' if byte else 'zero'}", f"read_boolean({byte:#04x}) gave {exc!r}/{v!r} after {pos} bytes, the protocol says {byte != 0}", data=bytes([byte]))
+        c.res.coverage.setdefault("exhaustive_ranges", []).append("all 256 bytes as boolean reader input")
     rng = common.rng_for("C11", "floats", c.i)
     vals = [0.0, -0.0, 1.0, -1.0, 1.5, 0.1, math.pi, -math.e, 5e-324, 2.2250738585072014e-308, 2.225073858507201e-308,
             1.7976931348623157e308, -1.7976931348623157e308, 2.0**53, 2.0**53 + 2, 1e-320, float(2**63), math.inf, -math.inf]
